@@ -135,11 +135,12 @@ Definition augment_gen (extra : list key) (o : obj) (ov : overrides) : option ob
     | _, _, _ => None
     end.
 
-(* THE CODE AS IT IS (option.py at the pinned commit): nothing besides the five
-   components and, for tabular MDPs, the two lists is copied.  If /repo is fixed to also
-   copy discount_rate, change [] to ["discount_rate"]: theory/OptionTheory.v proves the
-   full preservation statement for every `extra` containing "discount_rate". *)
-Definition copied_plain : list key := [].
+(* THE CODE AS IT IS (option.py after /repo commit 29c9a36 "augment keeps the base MDP's
+   discount rate"): besides the five components and, for tabular MDPs, the two lists,
+   `AugmentedMDP.discount_rate = mdp.discount_rate` is assigned before the return.
+   (Before that commit this list was empty: augment_gen [] is the OLD variant, about which
+   theory/OptionTheory.v keeps a historical refutation.) *)
+Definition copied_plain : list key := ["discount_rate"].
 Definition augment : obj -> overrides -> option obj := augment_gen copied_plain.
 
 (* --- PlanToSubgoalOption.sub_task ---------------------------------- *)
